@@ -358,4 +358,85 @@ theorem Mem.newHdr_spec (K : Klass) (m m' : Mem) (e? : Option Endian) (bs : List
   · simp [Mem.hdrE, List.getD_eq_getElem?_getD]
   · simp [Mem.hdrBytes, Mem.hdrCell, List.getD_eq_getElem?_getD]
 
+/-! ### frames per cell, and the extracted ownership skeleton -/
+
+
+/-- an operation that is not a write through a container on the cell of `b` does not write that cell -/
+theorem Mem.target_ne_buf_cell (K : Klass) (m m1 : Mem) (op : MOp) (hs : m.Sep) (hstep : m.step K op = some m1)
+    (b : Nat) (hb : b < m.bufs.length)
+    (hp : ∀ b' off bs, op = .poke b' off bs → m.bufCell b' ≠ m.bufCell b) : op.target m ≠ some (m.bufCell b) := by
+  cases op with
+  | poke b' off bs =>
+    intro e
+    exact hp b' off bs rfl (Option.some.inj e)
+  | alloc w bs => exact Mem.target_ne_buf K m m1 _ hs hstep b hb rfl
+  | view b' ro => exact Mem.target_ne_buf K m m1 _ hs hstep b hb rfl
+  | ctor b' e => exact Mem.target_ne_buf K m m1 _ hs hstep b hb rfl
+  | fromFile b' off e => exact Mem.target_ne_buf K m m1 _ hs hstep b hb rfl
+  | snap h => exact Mem.target_ne_buf K m m1 _ hs hstep b hb rfl
+  | setf h n v => exact Mem.target_ne_buf K m m1 _ hs hstep b hb rfl
+  | copy h => exact Mem.target_ne_buf K m m1 _ hs hstep b hb rfl
+  | swapTo h t => exact Mem.target_ne_buf K m m1 _ hs hstep b hb rfl
+  | fix h => exact Mem.target_ne_buf K m m1 _ hs hstep b hb rfl
+
+theorem Mem.step_buf_frame_cell (K : Klass) (m m1 : Mem) (op : MOp) (hs : m.Sep) (hstep : m.step K op = some m1)
+    (b : Nat) (hb : b < m.bufs.length)
+    (hp : ∀ b' off bs, op = .poke b' off bs → m.bufCell b' ≠ m.bufCell b) :
+    b < m1.bufs.length ∧ m1.bufs.getD b default = m.bufs.getD b default ∧ m1.bufBytes b = m.bufBytes b := by
+  have hx := Mem.step_ext K m m1 op hstep
+  obtain ⟨t, ht'⟩ := hx.bufs
+  have e1 : m1.bufs.getD b default = m.bufs.getD b default := by rw [ht']; exact getD_append_left _ _ _ _ hb
+  refine ⟨by rw [ht']; simp; omega, e1, ?_⟩
+  unfold Mem.bufBytes Mem.bufCell
+  rw [e1]
+  exact hx.cells _ (hs.1 _ (getD_mem _ _ _ hb)) (Mem.target_ne_buf_cell K m m1 op hs hstep b hb hp)
+
+/-- for ANY history in which nobody writes through a container on the cell of `b` (other containers may be
+    written at will): container `b` keeps its bytes -/
+theorem Mem.run_buf_frame_cell (K : Klass) (m m' : Mem) (ops : List MOp) (hs : m.Sep)
+    (hrun : Mem.run K m ops = some m') (b : Nat) (hb : b < m.bufs.length)
+    (hp : Mem.noPokeOn K m ops (m.bufCell b)) :
+    b < m'.bufs.length ∧ m'.bufs.getD b default = m.bufs.getD b default ∧ m'.bufBytes b = m.bufBytes b := by
+  induction ops generalizing m with
+  | nil => simp only [Mem.run, Option.some.injEq] at hrun; subst hrun; exact ⟨hb, rfl, rfl⟩
+  | cons op ops ih =>
+    simp only [Mem.run] at hrun
+    split at hrun
+    · cases hrun
+    · rename_i m1 h1
+      obtain ⟨hp0, hp1⟩ := hp
+      have f := Mem.step_buf_frame_cell K m m1 op hs h1 b hb hp0
+      have hc : m1.bufCell b = m.bufCell b := by unfold Mem.bufCell; rw [f.2.1]
+      have r := ih m1 (Mem.step_sep K m m1 op hs h1) hrun f.1 (by rw [hc]; exact hp1 m1 h1)
+      exact ⟨r.1, r.2.1.trans f.2.1, r.2.2.trans f.2.2⟩
+
+/-- a history without any write through a container certainly has none on a given cell -/
+theorem Mem.noPokeOn_of_no_poke (K : Klass) (m : Mem) (ops : List MOp) (c : Nat)
+    (hp : ∀ op ∈ ops, op.isPoke = false) : Mem.noPokeOn K m ops c := by
+  induction ops generalizing m with
+  | nil => trivial
+  | cons op ops ih =>
+    refine ⟨?_, fun m1 _ => ih m1 (fun o ho => hp o (List.mem_cons_of_mem _ ho))⟩
+    intro b off bs e
+    have := hp op (List.mem_cons_self ..)
+    rw [e] at this
+    simp [MOp.isPoke] at this
+
+/-- a skeleton that passes `OwnSkel.ok` describes `Mem.step` -/
+theorem Mem.stepBy_eq_step (K : Klass) (s : OwnSkel) (hs : s.ok = true) : Mem.stepBy K s = Mem.step K := by
+  funext m op
+  unfold OwnSkel.ok at hs
+  simp only [Bool.and_eq_true, beq_iff_eq] at hs
+  have h := hs.1.1.1.1.1.1.1.1
+  unfold Mem.stepBy
+  rw [h]
+  simp
+
+/-- and a skeleton whose constructor may store the wrapping array describes the aliasing variant -/
+theorem Mem.stepBy_wrap (K : Klass) (s : OwnSkel) (hs : s.ctorStores.contains .wrap = true) :
+    Mem.stepBy K s = Mem.stepAlias K := by
+  funext m op
+  unfold Mem.stepBy
+  rw [hs]; rfl
+
 end Nb.C10
